@@ -1,5 +1,4 @@
 CONSTANT SigCache = FALSE
-CONSTANT Devices <- MCDevices
 SPECIFICATION Spec
 INVARIANT RevisionDecides
 INVARIANT RevisionMatters
